@@ -9,6 +9,7 @@
 
      ret / panic / spanic / call      simple statements (spanic = call of a *shadowed* panic)
      break[L] continue[L] goto L      jumps, generated only towards legal targets
+     fgoto L                          forward goto: NewLabel + Goto now, Label later in an enclosing block
      label L                          NewLabel + Label (attaches to the next statement,
                                       or to an empty statement at the end of the block)
      open(k)  k in if, for, forcond, range, block, switch, tswitch, select, closure
@@ -27,8 +28,8 @@ CONSTANTS MaxOps, MaxNest, Labels, Kinds, Simple, Jumps, MaxItems
 \* Kinds: openable construct kinds; Simple: subset of {"ret","panic","spanic","call"};
 \* Jumps: subset of {"break","continue","goto","label","fallthrough"}; MaxItems: statements per list
 
-VARIABLES open, pend, nops, hist, lbl, missing, unused, dup
-vars == <<open, pend, nops, hist, lbl, missing, unused, dup>>
+VARIABLES open, pend, nops, hist, lbl, missing, unused, dup, nid
+vars == <<open, pend, nops, hist, lbl, missing, unused, dup, nid>>
 Top == open[Len(open)]
 Leaf(k, l) == [k |-> k, lab |-> l]
 
@@ -59,9 +60,11 @@ Term(s, label) ==
     [] OTHER -> FALSE
 
 (* ---------- the builder protocol at statement level ---------- *)
-NoLbl == [l \in Labels |-> [def |-> 0, used |-> FALSE, top |-> FALSE]]
-Init == /\ open = <<[k |-> "func", items |-> <<>>, cl |-> <<>>, x |-> ""]>> /\ pend = "" /\ nops = 0 /\ hist = <<>>
-        /\ lbl = <<NoLbl>> /\ missing = 0 /\ unused = <<>> /\ dup = <<>>
+\* fwd: the block path (frame ids) of a pending *forward* goto to the label (<<>> if none): "goto L" before "L:" is legal
+\* iff L is later defined in a block that encloses the goto (Go: goto must not jump into a block)
+NoLbl == [l \in Labels |-> [def |-> 0, used |-> FALSE, top |-> FALSE, fwd |-> <<>>]]
+Init == /\ open = <<[k |-> "func", items |-> <<>>, cl |-> <<>>, x |-> "", id |-> 0]>> /\ pend = "" /\ nops = 0 /\ hist = <<>>
+        /\ lbl = <<NoLbl>> /\ missing = 0 /\ unused = <<>> /\ dup = <<>> /\ nid = 1
 Log(op, a) == hist' = Append(hist, <<op, a>>) /\ nops' = nops + 1
 Wrap(s) == IF pend = "" THEN s ELSE [k |-> "labeled", lab |-> pend, stmt |-> s]
 Emit(s) == /\ open' = [open EXCEPT ![Len(open)].items = Append(@, Wrap(s))] /\ pend' = ""
@@ -79,41 +82,48 @@ EnclosingLabel(l, kinds) == \E i \in Mine : open[i].k \in kinds /\ open[i].x = l
 CurLbl == lbl[Len(lbl)]
 SetLbl(t) == lbl' = [lbl EXCEPT ![Len(lbl)] = t]
 Keep == UNCHANGED <<missing, unused, dup>>
+Path == [i \in 1..(Len(open) - FnBase + 1) |-> open[FnBase + i - 1].id]
+IsPrefixOf(p, q) == Len(p) <= Len(q) /\ \A i \in 1..Len(p) : p[i] = q[i]
 
-SimpleStmt(k) == /\ k \in Simple /\ InBody /\ Room /\ Emit(Leaf(k, "")) /\ UNCHANGED lbl /\ Keep /\ Log(k, "")
+SimpleStmt(k) == /\ k \in Simple /\ InBody /\ Room /\ Emit(Leaf(k, "")) /\ UNCHANGED <<lbl, nid>> /\ Keep /\ Log(k, "")
 Break(l) == /\ "break" \in Jumps /\ InBody /\ Room
             /\ (IF l = "" THEN InBreakable ELSE EnclosingLabel(l, Breakables))
             /\ Emit(Leaf("break", l)) /\ (IF l = "" THEN UNCHANGED lbl ELSE SetLbl([CurLbl EXCEPT ![l].used = TRUE]))
-            /\ Keep /\ Log("break", l)
+            /\ UNCHANGED nid /\ Keep /\ Log("break", l)
 Continue(l) == /\ "continue" \in Jumps /\ InBody /\ Room
                /\ (IF l = "" THEN InLoop ELSE EnclosingLabel(l, Loops))
                /\ Emit(Leaf("continue", l)) /\ (IF l = "" THEN UNCHANGED lbl ELSE SetLbl([CurLbl EXCEPT ![l].used = TRUE]))
-               /\ Keep /\ Log("continue", l)
+               /\ UNCHANGED nid /\ Keep /\ Log("continue", l)
 \* backward goto at the top level of the current function body only (always a legal target)
 Goto(l) == /\ "goto" \in Jumps /\ InBody /\ Room /\ Len(open) = FnBase /\ CurLbl[l].def = 1 /\ CurLbl[l].top
-           /\ Emit(Leaf("goto", l)) /\ SetLbl([CurLbl EXCEPT ![l].used = TRUE]) /\ Keep /\ Log("goto", l)
+           /\ Emit(Leaf("goto", l)) /\ SetLbl([CurLbl EXCEPT ![l].used = TRUE]) /\ UNCHANGED nid /\ Keep /\ Log("goto", l)
+\* forward goto: the label object exists (NewLabel) but is not placed yet; one pending forward goto per label
+FGoto(l) == /\ "fgoto" \in Jumps /\ InBody /\ Room /\ CurLbl[l].def = 0 /\ CurLbl[l].fwd = <<>>
+            /\ Emit(Leaf("goto", l)) /\ SetLbl([CurLbl EXCEPT ![l].used = TRUE, ![l].fwd = Path])
+            /\ UNCHANGED nid /\ Keep /\ Log("fgoto", l)
 Label(l) == /\ "label" \in Jumps /\ InBody /\ Room /\ pend = "" /\ CurLbl[l].def < 2
-            /\ SetLbl([CurLbl EXCEPT ![l].def = @ + 1, ![l].top = (IF CurLbl[l].def = 0 THEN Len(open) = FnBase ELSE @)])
+            /\ (CurLbl[l].fwd # <<>> => IsPrefixOf(Path, CurLbl[l].fwd))      \* the generator keeps forward jumps legal
+            /\ SetLbl([CurLbl EXCEPT ![l].def = @ + 1, ![l].top = (IF CurLbl[l].def = 0 THEN Len(open) = FnBase ELSE @), ![l].fwd = <<>>])
             /\ pend' = (IF CurLbl[l].def = 0 THEN l ELSE "")        \* the second definition is rejected: no label object, nothing attached
-            /\ UNCHANGED open /\ Keep /\ Log("label", l)
+            /\ UNCHANGED <<open, nid>> /\ Keep /\ Log("label", l)
 Fallthrough == /\ "fallthrough" \in Jumps /\ Top.k = "case" /\ Room /\ pend = ""
-               /\ Emit(Leaf("fallthrough", "")) /\ UNCHANGED lbl /\ Keep /\ Log("fallthrough", "")
+               /\ Emit(Leaf("fallthrough", "")) /\ UNCHANGED <<lbl, nid>> /\ Keep /\ Log("fallthrough", "")
 Open(k) == /\ k \in Kinds /\ k # "closure" /\ InBody /\ Room /\ Len(open) < MaxNest
-           /\ open' = Append(open, [k |-> k, items |-> <<>>, cl |-> <<>>, x |-> pend]) /\ pend' = ""
+           /\ open' = Append(open, [k |-> k, items |-> <<>>, cl |-> <<>>, x |-> pend, id |-> nid]) /\ pend' = "" /\ nid' = nid + 1
            /\ UNCHANGED lbl /\ Keep /\ Log(k, "")
 \* gf(func() int { ... }) : a closure as argument of an expression statement; own label table
 OpenClosure == /\ "closure" \in Kinds /\ InBody /\ Room /\ Len(open) < MaxNest /\ pend = ""
-               /\ open' = Append(open, [k |-> "closure", items |-> <<>>, cl |-> <<>>, x |-> ""])
+               /\ open' = Append(open, [k |-> "closure", items |-> <<>>, cl |-> <<>>, x |-> "", id |-> nid]) /\ nid' = nid + 1
                /\ lbl' = Append(lbl, NoLbl) /\ UNCHANGED pend /\ Keep /\ Log("closure", "")
 Else == /\ Top.k = "ifb" /\ pend = ""
-        /\ open' = [open EXCEPT ![Len(open)] = [k |-> "elseb", items |-> <<>>, cl |-> <<[items |-> Top.items]>>, x |-> Top.x]]
-        /\ UNCHANGED <<pend, lbl>> /\ Keep /\ Log("else", "")
+        /\ open' = [open EXCEPT ![Len(open)] = [k |-> "elseb", items |-> <<>>, cl |-> <<[items |-> Top.items]>>, x |-> Top.x, id |-> nid]]
+        /\ nid' = nid + 1 /\ UNCHANGED <<pend, lbl>> /\ Keep /\ Log("else", "")
 ClauseKind(k) == IF k = "switch" THEN "case" ELSE IF k = "tswitch" THEN "tcase" ELSE "comm"
 HasDefault(f) == \E i \in 1..Len(f.cl) : f.cl[i].dflt
 Clause(d) == /\ Top.k \in {"switch", "tswitch", "select"} /\ Len(open) < MaxNest /\ pend = "" /\ Len(Top.cl) < MaxItems
              /\ (d => ~HasDefault(Top))
-             /\ open' = Append(open, [k |-> ClauseKind(Top.k), items |-> <<>>, cl |-> <<>>, x |-> IF d THEN "dflt" ELSE ""])
-             /\ UNCHANGED <<pend, lbl>> /\ Keep /\ Log(IF d THEN "default" ELSE "case", "")
+             /\ open' = Append(open, [k |-> ClauseKind(Top.k), items |-> <<>>, cl |-> <<>>, x |-> IF d THEN "dflt" ELSE "", id |-> nid])
+             /\ nid' = nid + 1 /\ UNCHANGED <<pend, lbl>> /\ Keep /\ Log(IF d THEN "default" ELSE "case", "")
 Trail(f) == IF pend = "" THEN f.items ELSE Append(f.items, [k |-> "labeled", lab |-> pend, stmt |-> [k |-> "empty"]])
 SeqOfSet(S) == CHOOSE s \in [1..Cardinality(S) -> S] : \A i, j \in 1..Cardinality(S) : i < j => s[i] # s[j]
 UnusedOf(t) == {l \in Labels : t[l].def > 0 /\ ~t[l].used}
@@ -130,6 +140,7 @@ Close ==
          lab == IF f.k \in {"case", "tcase", "comm", "closure"} THEN "" ELSE f.x
          wrapped == IF lab = "" THEN node ELSE [k |-> "labeled", lab |-> lab, stmt |-> node] IN
      /\ (f.k \in {"switch", "tswitch", "select"} => pend = "")
+     /\ (f.k = "closure" => \A l \in Labels : CurLbl[l].fwd = <<>>)           \* every forward goto of the closure found its label
      /\ (f.k \in {"case", "tcase"} /\ Len(f.items) > 0 /\ f.items[Len(f.items)].k = "fallthrough" => pend = "")
      /\ IF f.k \in {"case", "tcase", "comm"}
           THEN open' = [SubSeq(open, 1, Len(open) - 1) EXCEPT ![Len(open) - 1].cl = Append(@, [items |-> trail, dflt |-> f.x = "dflt"])]
@@ -139,7 +150,7 @@ Close ==
                /\ unused' = unused \o SeqOfSet(UnusedOf(CurLbl)) /\ dup' = dup \o SeqOfSet(DupOf(CurLbl))
                /\ lbl' = SubSeq(lbl, 1, Len(lbl) - 1)
           ELSE UNCHANGED <<missing, unused, dup, lbl>>
-  /\ pend' = "" /\ Log("end", "")
+  /\ pend' = "" /\ UNCHANGED nid /\ Log("end", "")
 \* fallthrough must be the last statement of a clause and not in the last clause: the generator keeps bodies legal
 LegalFallthrough ==
   \A i \in 1..Len(open) : open[i].k = "case" =>
@@ -147,7 +158,7 @@ LegalFallthrough ==
 Next == /\ nops < MaxOps
         /\ \/ \E k \in {"ret", "panic", "spanic", "call"} : SimpleStmt(k)
            \/ \E l \in Labels \cup {""} : Break(l) \/ Continue(l)
-           \/ \E l \in Labels : Goto(l) \/ Label(l)
+           \/ \E l \in Labels : Goto(l) \/ Label(l) \/ FGoto(l)
            \/ Fallthrough \/ Else \/ Close \/ OpenClosure
            \/ \E k \in {"ifb", "for", "forcond", "range", "block", "switch", "tswitch", "select"} : Open(k)
            \/ \E d \in BOOLEAN : Clause(d)
@@ -166,7 +177,7 @@ NoFinalFallthrough(s) ==
          /\ (Len(s.cl) > 0 => LET last == s.cl[Len(s.cl)].items IN ~(Len(last) > 0 /\ last[Len(last)].k = "fallthrough"))
     [] OTHER -> TRUE
 NoFinalFallthroughList(list) == \A i \in 1..Len(list) : NoFinalFallthrough(list[i])
-Legal == NoFinalFallthroughList(BodyList)
+Legal == NoFinalFallthroughList(BodyList) /\ \A l \in Labels : lbl[1][l].fwd = <<>>
 Result == [ops |-> hist,
            missing |-> missing + (IF TermList(BodyList) THEN 0 ELSE 1),
            unused |-> unused \o SeqOfSet(UnusedOf(lbl[1])),
